@@ -130,13 +130,21 @@ def addrLine (line : String) : String :=
       let ok : Bool := match runRecipe (execRecipe [] [] lfd) [] t3 modelPid with
         | some c => decide (fdGet 3 c.fds = some { obj := 7, cloexec := false }) && !c.fds.any (fun e => e.2.obj == 201)
         | none => false
+      -- where the service's stdout points: the caller's stderr (object 102), its stdout (101), or nowhere
+      let banner : String := match runRecipe (execRecipe [] [] lfd) [] t3 modelPid with
+        | some c => match fdGet 1 c.fds with
+          | some e => if e.obj == 102 then "stderr" else if e.obj == 101 then "stdout" else "none"
+          | none => "none"
+        | none => "none"
       if ok then
         render (.list [.atom "act3", .list [.atom "reply", strAtom w.svc.vendor],
-          .list [.atom "act", strAtom "1", strAtom "varlink", .atom "t", .atom "t", .atom "t", .atom "t"]])
+          .list [.atom "act", strAtom "1", strAtom "varlink", .atom "t", .atom "t", .atom "t", .atom "t"],
+          .list [.atom "banner", .atom banner]])
       else
         -- the service never gets the socket (or `spawn` only returns when the service has given up):
         -- the connect that follows is refused
-        render (.list [.atom "act3", .list [.atom "fail", strAtom "Io(ConnectionRefused)"], .list [.atom "noact"]])
+        render (.list [.atom "act3", .list [.atom "fail", strAtom "Io(ConnectionRefused)"], .list [.atom "noact"],
+          .list [.atom "banner", .atom banner]])
     | none => "(model-case-error)"
   | some (.list [.atom "xport", w, .list (.atom "reads" :: cs), dec]) =>
     match parseWorld w, cs.mapM asBytes, parseDec dec with
@@ -200,12 +208,17 @@ def addrPred (prop caseLine obsLine : String) : String :=
       match asOptStr fds, parsePidSpec pid, asOptStr names, asStr a with
       | some fds, some pid, some names, some a => verdictStr (AddrPred.P_actenv fds pid names a (parseLRes r))
       | _, _, _, _ => "fail unparsable-case"
-    | .list (.atom "act3" :: _ :: rest), .list [.atom "act3", .list (.atom "reply" :: _), act] =>
+    | .list (.atom "act3" :: _ :: rest), .list [.atom "act3", .list (.atom "reply" :: _), act, .list [.atom "banner", .atom banner]] =>
       -- six identical runs stand for "the call was answered"; the activation facts are the point
       let runs := ["a", "b", "c", "d", "e", "f"].map fun n => (n, AddrPred.XRes.out [])
       let where_ := match rest with | [c] => (asStr c).getD "" | _ => ""
+      -- the service's stdout belongs on the caller's stderr whenever the caller has one
+      let stderrOpen := !(where_.splitOn ",").contains "2"
       match AddrPred.P_xport runs (parseActFacts act) with
-      | none => "ok"
+      | none =>
+        if stderrOpen && banner != "stderr" then
+          "fail activated-service-stdout-not-on-caller-stderr" ++ (if where_ == "" then "" else "-with-closed-" ++ where_)
+        else "ok"
       | some r => "fail " ++ r ++ (if where_ == "" then "" else "-with-closed-" ++ where_)
     | .list (.atom "act3" :: _ :: rest), .list (.atom "act3" :: _) =>
       match rest with
